@@ -199,11 +199,13 @@ def siblings(check: Check, facts: dict) -> None:
                 tcmp = [x for x in meth[1][2] if x != ("global", "fuzzylite.defuzzifier.WeightedDefuzzifier.Type.Tsukamoto")] if meth[0] == "ifexp" else []
                 if ok and tcmp:
                     tt = tcmp[0]
-                    alts = tt[1] if tt[0] == "phi" else [tt]
-                    has_self = any(path_of(a) == "self.type" for a in alts)
-                    has_inf = any(a[0] == "call" and a[1][0] == "attr" and a[1][2] == "infer_type" for a in alts)
-                    ok = has_self and has_inf
-                    why = f"type used for the selection is {show(tt)[:140]}"
+                    AUTO = ("global", "fuzzylite.defuzzifier.WeightedDefuzzifier.Type.Automatic")
+                    ok = False
+                    if tt[0] == "ifexp" and tt[1][0] == "cmp" and set(tt[1][2]) == {("attr", SELF, "type"), AUTO}:
+                        inferred, explicit = (tt[2], tt[3]) if tt[1][1] == ("==",) else ((tt[3], tt[2]) if tt[1][1] == ("!=",) else (None, None))
+                        ok = explicit is not None and path_of(explicit) == "self.type" and inferred[0] == "call" and inferred[1][0] == "attr" and \
+                            inferred[1][2] == "infer_type" and inferred[2] == (("param", f["fn"].params[1].name),)
+                    why = f"type used for the selection is {show(tt)[:160]} (expected: the explicit type, or infer_type(fuzzy output) iff the type is Automatic)"
             check.require(ok, "S3", f"{name}.defuzzify/value",
                           "z = term.tsukamoto(w) iff the resolved type (explicit, or inferred when Automatic) is Tsukamoto, else term.membership(w)" if ok else why,
                           loc(f["fn"], f["head"]))
@@ -231,14 +233,15 @@ def infer_type_table(check: Check) -> None:
             return None
         if t == ("call", ("attr", COMP, "is_monotonic"), (), ()):
             return "monotonic"
-        if t[0] == "cmp" and t[1] == ("==",) and t[2][0][0] == "call" and t[2][0][1] == ("global", "len"):
-            k = const_value(t[2][1])
-            return {1: "one_type", 0: "no_types"}.get(k)
+        if t[0] == "call" and t[1] == ("global", "len") and len(t[2]) == 1 and t[2][0][0] == "opaque" and t[2][0][1] == "SetComp":
+            return "ntypes"
+        if t[0] == "opaque" and t[1] == "SetComp":
+            return "ntypes"  # truthiness of the set of kinds
         return None
 
     def outcome(env) -> list[str]:
         ev = RoleEval(r, classify)
-        base = {"is_collection": False, "is_activated": False, "is_ts_term": False, "monotonic": False, "one_type": False, "no_types": False}
+        base = {"is_collection": False, "is_activated": False, "is_ts_term": False, "monotonic": False, "ntypes": 2}
         base.update(env)
         outs = []
         first = [s for s, _ in cfg.entry.succ][0]
@@ -267,9 +270,10 @@ def infer_type_table(check: Check) -> None:
         ("monotonic", {"monotonic": True}, ["Tsukamoto"]),
         ("other", {}, ["Automatic"]),
         ("activated", {"is_activated": True}, [f"recurse:{comp}.term"]),
-        ("collection-one-type", {"is_collection": True, "one_type": True}, ["the-single-type"]),
-        ("collection-empty", {"is_collection": True, "no_types": True}, ["Automatic"]),
-        ("collection-mixed", {"is_collection": True}, ["raise:TypeError"]),
+        ("collection-one-type", {"is_collection": True, "ntypes": 1}, ["the-single-type"]),
+        ("collection-empty", {"is_collection": True, "ntypes": 0}, ["Automatic"]),
+        ("collection-mixed", {"is_collection": True, "ntypes": 2}, ["raise:TypeError"]),
+        ("collection-mixed-3", {"is_collection": True, "ntypes": 3}, ["raise:TypeError"]),
     ]
     for name, env, want in table:
         got = outcome(env)
@@ -339,14 +343,15 @@ def empty_or_zero(check: Check, facts: dict) -> None:
             it = [q for q, _ in f["head"].pred if q.kind == "iter"][0]
             ds = cfg.defs_reaching(name, it)
             seeds[name] = [r.term(d.value, d.node) for d in ds if d.value is not None]
-        zs = seeds[zname][0] if len(seeds[zname]) == 1 else None
-        ws = seeds[wname][0] if len(seeds[wname]) == 1 else None
-        seed_ok = zs is not None and ws is not None and const_value(ws) == 0
-        empty_nan = False
-        if zs is not None:
-            s = strip(zs)
-            empty_nan = s[0] == "ifexp" and path_of(s[1]) is not None and s[1][2] == "terms" and const_value(s[2]) == 0 and \
-                (lambda v: isinstance(v, float) and v != v)(const_value(s[3]))
+        itn = [q for q, _ in f["head"].pred if q.kind == "iter"][0]
+        zs = r.name_term(zname, itn)
+        ws = r.name_term(wname, itn)
+        seed_ok = const_value(ws) == 0
+        s = strip(zs)
+        isnan_ = lambda v: isinstance(v, float) and v != v  # noqa: E731
+        empty_nan = s[0] == "ifexp" and path_of(s[1]) is not None and s[1][2] == "terms" and const_value(s[2]) == 0 and isnan_(const_value(s[3]))
+        if s[0] == "ifexp" and s[1][0] == "unop" and s[1][1] == "not" and path_of(s[1][2]) is not None and s[1][2][2] == "terms":
+            empty_nan = const_value(s[3]) == 0 and isnan_(const_value(s[2]))
         check.require(seed_ok and empty_nan, "A3", f"{dname}.defuzzify/seeds",
                       "sums start at 0, and at NaN when the fuzzy output has no activations" if seed_ok and empty_nan else
                       f"seeds: weights={show(ws) if ws else None}, values={show(zs) if zs else None}", loc(f["fn"]))
